@@ -1,6 +1,7 @@
 package main
 
 import (
+	"go/ast"
 	"fmt"
 	"go/types"
 	"reflect"
@@ -88,6 +89,19 @@ func (e *Exec) callFunction(caller *frame, fn *ssa.Function, args []Value, env [
 			return e.callFrom(caller, st, args)
 		}
 	}
+	if len(e.stubsPre) > 0 {
+		if st, ok := e.stubsPre[key]; ok {
+			// pre-stub: returns (handled, results...); falls through to the real function when not handled
+			r := e.callFrom(caller, st, args).(Tuple)
+			if e.concBool(r[0]) {
+				e.res.noteIntrinsic("stubpre:" + key)
+				if len(r) == 2 {
+					return r[1]
+				}
+				return Tuple(r[1:])
+			}
+		}
+	}
 	if in, ok := intrinsics[key]; ok {
 		e.res.noteIntrinsic(key)
 		return in(e, caller, fn, args)
@@ -140,7 +154,61 @@ func (r *HarnessResult) noteNative(k string) {
 	r.mu.Unlock()
 }
 
+// resolveLinkname finds the target of a body-less function declared with //go:linkname.
+func (e *Exec) resolveLinkname(fn *ssa.Function) *ssa.Function {
+	fd, ok := fn.Syntax().(*ast.FuncDecl)
+	if !ok || fd.Doc == nil {
+		return nil
+	}
+	for _, c := range fd.Doc.List {
+		f := strings.Fields(c.Text)
+		if len(f) == 3 && f[0] == "//go:linkname" && f[1] == fn.Name() {
+			target := f[2]
+			// forms: pkg/path.Func  or  pkg/path.(*T).m  or pkg/path.T.m
+			if i := strings.Index(target, ".("); i >= 0 {
+				pkgPath := target[:i]
+				rest := target[i+2:] // *T).m
+				j := strings.Index(rest, ").")
+				if j < 0 {
+					return nil
+				}
+				tname, mname := strings.TrimPrefix(rest[:j], "*"), rest[j+2:]
+				p := e.w.prog.ImportedPackage(pkgPath)
+				if p == nil {
+					return nil
+				}
+				e.w.ensureBuilt(p)
+				obj := p.Pkg.Scope().Lookup(tname)
+				if obj == nil {
+					return nil
+				}
+				var recv types.Type = obj.Type()
+				if strings.HasPrefix(rest, "*") {
+					recv = types.NewPointer(recv)
+				}
+				return e.w.prog.LookupMethod(recv, p.Pkg, mname)
+			}
+			k := strings.LastIndex(target, ".")
+			if k < 0 {
+				return nil
+			}
+			p := e.w.prog.ImportedPackage(target[:k])
+			if p == nil {
+				return nil
+			}
+			e.w.ensureBuilt(p)
+			return p.Func(target[k+1:])
+		}
+	}
+	return nil
+}
+
 func (e *Exec) callSSAFrame(caller *frame, fn *ssa.Function, args []Value, env []Value) Value {
+	if fn.Blocks == nil && fn.Synthetic == "" {
+		if t := e.resolveLinkname(fn); t != nil && t != fn {
+			return e.callSSAFrame(caller, t, args, env)
+		}
+	}
 	if fn.Blocks == nil {
 		if fn.Pkg != nil {
 			e.w.ensureBuilt(fn.Pkg)
